@@ -76,7 +76,10 @@ IsZ(a) == a[1] = "Z"
 HasZ(s) == \E k \in 1..Len(s) : IsZ(s[k])
 FirstZ(s) == CHOOSE k \in 1..Len(s) : IsZ(s[k]) /\ \A j \in 1..(k - 1) : ~IsZ(s[j])
 
-TakeLens(s) == IF FillAll THEN {Len(s)} ELSE 1..Len(s)
+\* In "mem" mode the chunk handed to one handle() call is assumed to fit handle()'s own buffer (8 KiB): a fill takes
+\* everything.  (What happens beyond that is a recorded finding, F21: the remainder stays in the caller's temporary reader.)
+\* In "listen" mode reads are short in arbitrary ways.
+TakeLens(s) == IF FillAll \/ mode = "mem" THEN {Len(s)} ELSE 1..Len(s)
 
 E == Ref!ExpectedOf(reqs)
 AllAtoms == Stream(reqs, trunc)
@@ -199,10 +202,10 @@ UpEof ==
 (* ---- returning to the caller ---- *)
 RetMem ==
   /\ mode = "mem" /\ pc = "ret"
-  \* the caller keeps what the handler left unread in the reader it was given
-  /\ tail' = tail \o wire /\ wire' = <<>>
+  \* the documented caller keeps ONLY the returned tail; the reader it handed in was a temporary over its buffer
+  /\ wire' = <<>> /\ UNCHANGED tail
   /\ pc' = "outside"
-  /\ hist' = Append(hist, [ev |-> "ret", tail |-> tail \o wire, upg |-> upg, nout |-> Len(out)])
+  /\ hist' = Append(hist, [ev |-> "ret", tail |-> tail, upg |-> upg, nout |-> Len(out)])
   /\ UNCHANGED <<reqs, trunc, mode, chunks, eof, obuf, ibuf, msg, cur, upg, fed, out, upRx>>
 
 ErrMem ==
